@@ -46,7 +46,7 @@ FUNCS = read_lists()          # (file, C name, Coq name)
 BUILTINS = {'isspace': 'BIsspace', 'isdigit': 'BIsdigit', 'isalpha': 'BIsalpha', 'isupper': 'BIsupper', 'islower': 'BIslower',
             'isalnum': 'BIsalnum', 'isprint': 'BIsprint', 'tolower': 'BTolower', 'toupper': 'BToupper',
             'strlen': 'BStrlen', 'strchr': 'BStrchr', 'strcmp': 'BStrcmp', 'strncmp': 'BStrncmp', 'strrchr': 'BStrrchr',
-            'strcpy': 'BStrcpy'}
+            'strcpy': 'BStrcpy', 'atoi': 'BAtoi'}
 
 
 class Unsupported(Exception):
@@ -664,8 +664,19 @@ class Fn:
         pre = []
         for c in self.decl.get('inner', []):
             if c['kind'] == 'ParmVarDecl' and c['id'] in self.addr_taken:
-                raise Unsupported('address of the parameter %s' % c.get('name'))
-        s = self.st(body)
+                # a parameter whose address is taken: copied at entry into a fresh block of its own (like an
+                # address-taken local); the parameter's slot keeps the value passed, a new slot holds the pointer
+                t = self.tr.types.parse(qt(c))
+                if t[0] not in ('int', 'ptr'):
+                    raise Unsupported('address of the parameter %s of type %r' % (c.get('name'), t))
+                i = self.locals[c['id']]
+                j = len(self.locals)
+                self.locals[('param', c['id'])] = i
+                self.locals[c['id']] = j
+                self.inmem[c['id']] = t
+                pre.append('(SExpr (ESetLocal %d (EBuiltin BMalloc [(EConst %d)])))' % (j, self.tr.types.cells(t)))
+                pre.append('(SExpr %s)' % self.assign(('mem', '(ELocal %d)' % j, t), '(ELocal %d)' % i))
+        s = self.seq(pre + [self.st(body)])
         return self.nparams, len(self.locals), s
 
 
